@@ -71,7 +71,7 @@ EXPECTED = (AssertionError, ZeroDivisionError, IndexError, KeyError, ValueError,
 def op_netlist(op):
     from frame.netlist.netlist import Netlist
     try:
-        n = Netlist(op["doc"])
+        n = Netlist(op["text"] if "text" in op else op["doc"])
     except EXPECTED as e:
         return err(e)
     mods = []
